@@ -313,8 +313,8 @@ package strategy
 // what each New* function returns, read off its literal: fresh, pairwise separate sub-objects, fields equal to the
 // arguments / constants they are initialised with (transitively through nested constructors); proved, not assumed
 //@ func NewBuyAndHoldStrategy
-//@ ensures[C06] "fresh-and-separate-objects" fresh(result)
+//@ ensures[C04,C05,C06,C14] "fresh-and-separate-objects" fresh(result)
 
 //@ func NewMajorityStrategy
-//@ ensures[C06] "fresh-and-separate-objects" fresh(result)
+//@ ensures[C04,C05,C06,C14] "fresh-and-separate-objects" fresh(result)
 // ---- end of generated constructor contracts ----
